@@ -8,7 +8,8 @@ COMMON_TB = [
 ]
 NOTE = ("Trusted: Lean 4.33.0 kernel (axioms propext, Classical.choice, Quot.sound only; no sorry/native_decide); the model is "
         "hand-written and tied to /repo by differential correspondence (Go harness vs compiled Lean driver) on every run; "
-        "Go's regexp/fmt/strconv/reflect/encoding-json behaviour is modelled, not verified. ")
+        "Go's regexp/fmt/strconv/reflect/encoding-json behaviour is modelled, not verified; the case mapping of package unicode "
+        "is tabulated from the toolchain on every run (translator T6), not checked against the Unicode standard. ")
 
 PROPS, LEVEL_TEXT = {}, {}
 for _m in pkgutil.iter_modules(__path__):
@@ -51,7 +52,8 @@ for _pid, _mods in EXTRA_MODULES.items():
     if _pid in PROPS:
         PROPS[_pid]["modules"] = list(dict.fromkeys(PROPS[_pid]["modules"] + _mods))
 
-# Obligations over tables regenerated from the Go source on every run (translators T2, T4, T5, T6, DESIGN 5.4): the Lean
+# Obligations over tables regenerated on every run (translators T2, T3, T4, T5 from the Go source of /repo, T6 from the
+# toolchain's unicode package; T1's grammar_is_standard is a theorem of Proofs.C06 itself; DESIGN 3.3, 5.4): the Lean
 # module that states the obligation is added to the property's audited modules, the obligation name to
 # PROP["obligations"] (a translator line `OBLIGATION <name> BROKEN <fact>` then counts for the property), and the
 # translator to its trusted base.
